@@ -45,6 +45,40 @@ def sessionStep (key : Bytes) (t : String) : Option String :=
   | [cuts, step] => if cutsOk cuts then sessionStep1 key step else none
   | _ => none
 
+/-- auth key token of `c03.mix`: a byte-string token or `nil` (no key yet) -/
+def mixKey? (s : String) : Option Bytes := if s = "nil" then some [] else parseTok? s
+
+/-- one step of `c03.mix` (harness/cmd/vh/c03mix.go): the model's function of the step's arguments alone — the
+model has no state, so what was refused or accepted before a step cannot matter to it
+(`Mtv.Envelope.seal_sequence_independent`, `open_sequence_independent`) -/
+def mixStep (t : String) : Option String :=
+  match t.splitOn "," with
+  | ["s", key, salt, sid, mid, seq, ack, body] =>
+    match mixKey? key, salt.toNat?, sid.toNat?, mid.toNat?, seq.toNat?, parseTok? body with
+    | some key, some salt, some sid, some mid, some seq, some body =>
+      if ack ≠ "0" ∧ ack ≠ "1" then none else
+      some (showOutcome (fun pkt => s!"keyid={showB (pkt.take 8)} msgkey={showB (slice pkt 8 24)} ct={showB (pkt.drop 24)}")
+        (sealClient prims key salt sid mid seq (ack = "1") body))
+    | _, _, _, _, _, _ => none
+  | ["o", key, salt, sid, mid, seq, body, pad] =>
+    match mixKey? key, salt.toNat?, sid.toNat?, mid.toNat?, seq.toNat?, parseTok? body, parseTok? pad with
+    | some key, some salt, some sid, some mid, some seq, some body, some pad =>
+      some (showOutcome showMsg (openClient prims key (Spec.serverSeal prims key ⟨salt, sid, mid, seq, body⟩ pad)))
+    | _, _, _, _, _, _, _ => none
+  | ["d", key, pkt] =>
+    match mixKey? key, parseTok? pkt with
+    | some key, some pkt => some (showOutcome showMsg (openClient prims key pkt))
+    | _, _ => none
+  | ["us", mid, body] =>
+    match mid.toNat?, parseTok? body with
+    | some mid, some body => some ("bytes=" ++ showB (Unenc.serialize mid body))
+    | _, _ => none
+  | ["ud", d] =>
+    match parseTok? d with
+    | some d => some (showUnenc (Unenc.deserialize d))
+    | none => none
+  | _ => none
+
 /-- operations of property C03 (see harness/cmd/vh/c03.go for the Go side of each) -/
 def handle : List String → String
   -- Encrypted.Serialize
@@ -84,6 +118,13 @@ def handle : List String → String
       match (step :: steps).mapM (sessionStep key) with
       | some ls => " ; ".intercalate ls
       | none => "bad-op"
+    | none => "bad-op"
+  -- one process, one sequence of refused and accepted operations of several clients (mode: how the Go side
+  -- treats the garbage collector and the scheduler — nothing the model has)
+  | "c03.mix" :: mode :: step :: steps =>
+    if mode ≠ "nogc" ∧ mode ≠ "gc" ∧ mode ≠ "p1" then "bad-op" else
+    match (step :: steps).mapM mixStep with
+    | some ls => " ; ".intercalate ls
     | none => "bad-op"
   -- several clients sealing/opening at the same time: an operation about the schedule, not about a
   -- function's value; the model's calls do not share anything, so each client's packets are what
